@@ -6,7 +6,8 @@ Driver ops for C20 (executable `drv_algo`; this module exports `Qib.Vqe.dispatch
 
 * `vqe.expect` `{psi: [[re,im],…], strings: [[{z,x,q},[re,im]],…]}` or `{psi, P: Mat}`
   → `{raised: null | "<ExceptionClass>", value: [re,im], spec: [re,im], herm: bool}`
-  (`value` = the code's `(ψ̄ᵀ P) ψ`, `spec` = the double sum `Σᵢⱼ conj ψᵢ Pᵢⱼ ψⱼ`, `herm` = `Pᴴ = P` exactly)
+  (`value` = the code's `(ψ̄ᵀ P) ψ`, `spec` = the double sum `Σᵢⱼ conj ψᵢ Pᵢⱼ ψⱼ`, `herm` = `Pᴴ = P` exactly,
+  `flag` = `PauliOperator.is_hermitian()` of the Pauli model)
 * `vqe.qucc` `{L, exc: "s"|"d"|"sd"|…, params: [[re,im],…]}`
   → `{raised: "<ExceptionClass>", where: "ctor"|"as_matrix"}` or `{raised: null, none: true}` (no branch: `None`) or `{raised: null, terms: [{T, G: T − Tᴴ, skew: Gᴴ = −G, commT: [N,T] = 0,
   commG: [N,G] = 0}, …]}` – one entry per exponential factor, in the order of the product.
@@ -20,10 +21,11 @@ def parsePsi (j : Json) : Except String (Array GQ) := do
 
 def isHermitianMat (P : Mat) : Bool := P.n == P.m && P.adjoint.beq P
 
-def expectReply (r : Except String GQ) (spec : GQ) (herm : Bool) : Json :=
+def expectReply (r : Except String GQ) (spec : GQ) (herm flag : Bool) : Json :=
   match r with
   | .error e => Json.mkObj [("raised", .str e)]
-  | .ok v => Json.mkObj [("raised", Json.null), ("value", v.toJson), ("spec", spec.toJson), ("herm", .bool herm)]
+  | .ok v => Json.mkObj [("raised", Json.null), ("value", v.toJson), ("spec", spec.toJson), ("herm", .bool herm),
+      ("flag", .bool flag)]
 
 def opExpect (j : Json) : Except String Json := do
   let ψ ← parsePsi j
@@ -33,16 +35,16 @@ def opExpect (j : Json) : Except String Json := do
       | .arr #[p, w] => do return (← Qib.Pauli.parsePS p, ← Qib.Pauli.parseGQ w)
       | _ => .error "expected [string, weight]"
     match op with
-    | [] => return expectReply (expectPauli ψ op) 0 false
+    | [] => return expectReply (expectPauli ψ op) 0 false false
     | (P0, _) :: _ =>
       if !(op.all fun e => e.1.z.length == P0.z.length && e.1.x.length == P0.z.length) then
         .error "strings of different lengths (the PauliOperator constructor refuses them)"
       else if P0.z.length > 7 then .error "too many qubits for the exact model" else
       let P := pauliMat P0.z.length op
-      return expectReply (expectPauli ψ op) (expectSpec ψ P) (isHermitianMat P)
+      return expectReply (expectPauli ψ op) (expectSpec ψ P) (isHermitianMat P) (Qib.Pauli.PauliOp.isHermitian op)
   | .error _ =>
     let P ← Mat.ofJson (← field j "P")
-    return expectReply (expect ψ P) (expectSpec ψ P) (isHermitianMat P)
+    return expectReply (expect ψ P) (expectSpec ψ P) (isHermitianMat P) false
 
 def termJson (L : Nat) (T : Mat) : Json :=
   let G := quccGenerator T
